@@ -598,6 +598,40 @@ class Interp(ExprMixin, CallMixin):
             return False
         return bool(st.orelse) and isinstance(st.orelse[-1], ast.Raise)
 
+    @staticmethod
+    def always_appends(body, name):
+        """does every iteration of the loop body that completes normally execute ``name.append(...)``?  a top level statement of
+        the body, or of the body of a top level ``try`` all of whose handlers raise; no ``continue`` anywhere in the body"""
+        def is_append(s):
+            return isinstance(s, ast.Expr) and isinstance(s.value, ast.Call) and isinstance(s.value.func, ast.Attribute) and \
+                s.value.func.attr == 'append' and isinstance(s.value.func.value, ast.Name) and s.value.func.value.id == name
+
+        def raises(h):
+            last = h.body[-1] if h.body else None
+            return isinstance(last, ast.Raise) or (isinstance(last, ast.Expr) and isinstance(last.value, ast.Call) and
+                                                   ast.unparse(last.value.func).endswith('raise_from'))
+        if any(isinstance(n, (ast.Continue, ast.Break)) for s in body for n in ast.walk(s)):
+            return False
+        for s in body:
+            if is_append(s):
+                return True
+            if isinstance(s, ast.Try) and all(raises(h) for h in s.handlers) and any(is_append(x) for x in s.body):
+                return True
+        return False
+
+    @staticmethod
+    def runs_at_least_once(it, fr):
+        """``range(n)`` / ``range(0, n)`` over an unsigned parsed number (or a length) that an enclosing test established to be
+        non-zero"""
+        from .values import show as _show
+        if not (isinstance(it, Sym) and it.op == 'range' and 1 <= len(it.args) <= 2):
+            return False
+        if len(it.args) == 2 and it.args[0] != 0:
+            return False
+        n = it.args[-1]
+        unsigned = (isinstance(n, FieldV) and n.op is not None and n.op.prim == 'parse_numeric') or (isinstance(n, Sym) and n.op == 'len')
+        return unsigned and _show(n) in fr.nonempty
+
     def s_While(self, st, fr):
         cond = self.eval(st.test, fr)
         if truth(cond) is False:
@@ -627,6 +661,10 @@ class Interp(ExprMixin, CallMixin):
             if isinstance(new, ListV) and new is old and n in list_lens and len(new.items) > list_lens[n]:
                 k = list_lens[n]
                 fr.env[n] = ListV(new.items[:k] + [Sym('repeat', *new.items[k:])], False)
+                if isinstance(st, ast.For) and self.always_appends(st.body, n) and self.runs_at_least_once(node.iterable, fr):
+                    # every iteration that completes appends, and the loop count was established to be non-zero
+                    from .values import show as _show
+                    fr.nonempty.add(_show(fr.env[n]))
                 continue
             if same_value(old, new):
                 fr.env[n] = old if n in fr.env else new
@@ -641,6 +679,9 @@ class Interp(ExprMixin, CallMixin):
                 if len(new.items) >= len(old.items):
                     delta = new.items[len(old.items):]
                     fr.env[n] = ListV(old.items + [Sym('repeat', *delta)], False)
+                    if delta and isinstance(st, ast.For) and self.always_appends(st.body, n) and self.runs_at_least_once(node.iterable, fr):
+                        from .values import show as _show
+                        fr.nonempty.add(_show(fr.env[n]))
                     continue
             fr.env[n] = Sym('loopacc', old, new)
         if st.orelse:
